@@ -35,7 +35,17 @@ MANIFEST = {
     "technique": "Coq proof (case split over the C11 specifications of py2v-generated code) + pairwise differential testing across file-thing kinds with a minimal-interface object",
 }
 ALLOWED_ATTRS = {"name", "close", "fileno", "mode", "closed", "filename"}
-WAYS = ["bytesio", "str", "bytes", "path", "file", "file_bytesname", "min_clamp", "min_raise", "kw_filename", "kw_filename_path", "kw_filename_bytes", "kw_fileobj"]
+WAYS = ["bytesio", "str", "bytes", "path", "pathlike_bytes", "file", "file_bytesname", "min_clamp", "min_raise", "kw_filename", "kw_filename_path",
+        "kw_filename_bytes", "kw_filename_pathlike_bytes", "kw_fileobj"]
+
+
+class BytesPath(object):
+    """an os.PathLike whose __fspath__ gives BYTES (as os.DirEntry objects of a bytes directory scan do)"""
+    def __init__(self, p):
+        self._p = os.fsencode(p)
+
+    def __fspath__(self):
+        return self._p
 
 
 def history(kind, way, data, tmpdir, base, asked):
@@ -50,6 +60,8 @@ def history(kind, way, data, tmpdir, base, asked):
         if way == "str": return fn, None
         if way == "bytes": return os.fsencode(fn), None
         if way == "path": return pathlib.Path(fn), None
+        if way == "pathlike_bytes": return BytesPath(fn), None
+        if way == "kw_filename_pathlike_bytes": return None, {"filename": BytesPath(fn)}
         if way == "kw_filename": return None, {"filename": fn}
         if way == "kw_filename_path": return None, {"filename": pathlib.Path(fn)}
         if way == "kw_filename_bytes": return None, {"filename": os.fsencode(fn)}
@@ -258,7 +270,7 @@ def detect_ways(ctx, kind, sample, data, tmp):
     def outcome(thing):
         try:
             o = mutagen.File(thing)
-            if o is not None and not isinstance(thing, (str, bytes, pathlib.PurePath)):
+            if o is not None and not isinstance(thing, (str, bytes, pathlib.PurePath, BytesPath)):
                 # an instance made from a file OBJECT has no file name of its own, exactly as when the type is called
                 # directly: a later save() without argument must not reach for a path
                 direct = None
@@ -276,13 +288,16 @@ def detect_ways(ctx, kind, sample, data, tmp):
             return "EXC:" + type(e).__name__
     for lab, path in variants:
         ref = outcome(path)
-        for way in ("bytes", "path", "kw_filename", "kw_filename_path", "kw_filename_bytes", "file", "file_bytesname"):
+        for way in ("bytes", "path", "pathlike_bytes", "kw_filename", "kw_filename_path", "kw_filename_bytes", "kw_filename_pathlike_bytes", "file", "file_bytesname"):
             if way == "bytes":
                 r = outcome(os.fsencode(path))
+            elif way == "pathlike_bytes":
+                r = outcome(BytesPath(path))
             elif way == "path":
                 r = outcome(pathlib.Path(path))
             elif way.startswith("kw_filename"):
-                arg = {"kw_filename": path, "kw_filename_path": pathlib.Path(path), "kw_filename_bytes": os.fsencode(path)}[way]
+                arg = {"kw_filename": path, "kw_filename_path": pathlib.Path(path), "kw_filename_bytes": os.fsencode(path),
+                       "kw_filename_pathlike_bytes": BytesPath(path)}[way]
                 try:
                     o = mutagen.File(filename=arg)
                     r = type(o).__name__
@@ -301,7 +316,7 @@ def detect_ways(ctx, kind, sample, data, tmp):
                 # explicitly: the explicit filename is what detection goes by
                 anon = os.path.join(tmp, "anon_%d" % (ctx.oracle_cases % 7))
                 shutil.copyfile(path, anon)
-                for nform, narg in (("str", path), ("bytes", os.fsencode(path)), ("path", pathlib.Path(path))):
+                for nform, narg in (("str", path), ("bytes", os.fsencode(path)), ("path", pathlib.Path(path)), ("pathlike-bytes", BytesPath(path))):
                     for fform in ("positional", "fileobj="):
                         with open(anon, "rb") as h:
                             try:
